@@ -1,6 +1,10 @@
 package main
 
-import "golang.org/x/tools/go/ssa"
+import (
+	"strings"
+
+	"golang.org/x/tools/go/ssa"
+)
 
 // boundParts returns root followed by the unexported same-package helpers it calls (to depth), and
 // binds — until restore is called — the parameters of every helper that has exactly one call site to
@@ -83,4 +87,43 @@ func flowsToIn(root *ssa.Function, a, b ssa.Instruction) bool {
 		return false
 	}
 	return flowsTo(la, lb)
+}
+
+// pathThroughFreeVars: PathOf(v), with a leading captured variable replaced by the access path of the
+// value the enclosing function bound to it (`player := b.serverConn.player; func() { player.X }` reads
+// as b.serverConn.player.X).
+func pathThroughFreeVars(v ssa.Value, fn *ssa.Function) string {
+	p := PathOf(v)
+	for depth := 0; depth < 4 && fn != nil && fn.Parent() != nil; depth++ {
+		replaced := false
+		for i, fv := range fn.FreeVars {
+			name := fv.Name()
+			if p != name && !strings.HasPrefix(p, name+".") {
+				continue
+			}
+			eachInstr(fn.Parent(), func(in ssa.Instruction) {
+				mc, ok := in.(*ssa.MakeClosure)
+				if !ok || mc.Fn != ssa.Value(fn) || i >= len(mc.Bindings) || replaced {
+					return
+				}
+				b := mc.Bindings[i]
+				// a captured variable that is assigned once: the cell's single store
+				if al, isAl := b.(*ssa.Alloc); isAl {
+					if sv := singleStore(al); sv != nil {
+						b = sv
+					}
+				}
+				p = PathOf(b) + p[len(name):]
+				replaced = true
+			})
+			if replaced {
+				break
+			}
+		}
+		if !replaced {
+			break
+		}
+		fn = fn.Parent()
+	}
+	return p
 }
